@@ -98,9 +98,11 @@ def eccentricity_derivative(
     dR_dw_1 = -1. * beta_invr * mass_2 * dU_dw_1
     dR_dw_2 = -1. * beta_invr * mass_1 * dU_dw_2
 
-    # Correct for zero eccentricity
-    de_dt = (np.abs(denom) <= float_eps) * 0. + \
-            (np.abs(denom) > float_eps) * (e_term1 / denom) * (e_term1 * dR_dM - (dR_dw_1 + dR_dw_2))
+    # Correct for zero eccentricity: the rate vanishes in the limit e -> 0. The denominator is replaced by 1 wherever it
+    #    is zero so that no 0/0 (ZeroDivisionError for floats, NaN for arrays) is ever formed.
+    zero_denom = np.abs(denom) <= float_eps
+    safe_denom = denom + zero_denom * 1.
+    de_dt = (1. - zero_denom * 1.) * (e_term1 / safe_denom) * (e_term1 * dR_dM - (dR_dw_1 + dR_dw_2))
 
     return de_dt
 
@@ -158,8 +160,10 @@ def semia_eccen_derivatives(
     e_term1 = np.sqrt(1. - eccentricity * eccentricity)
     denom = orbital_motion * semi_major_axis * semi_major_axis * eccentricity
 
-    # Correct for zero eccentricity
-    de_dt = (np.abs(denom) <= float_eps) * 0. + \
-            (np.abs(denom) > float_eps) * (e_term1 / denom) * (e_term1 * dR_dM - (dR_dw_1 + dR_dw_2))
+    # Correct for zero eccentricity: the rate vanishes in the limit e -> 0. The denominator is replaced by 1 wherever it
+    #    is zero so that no 0/0 (ZeroDivisionError for floats, NaN for arrays) is ever formed.
+    zero_denom = np.abs(denom) <= float_eps
+    safe_denom = denom + zero_denom * 1.
+    de_dt = (1. - zero_denom * 1.) * (e_term1 / safe_denom) * (e_term1 * dR_dM - (dR_dw_1 + dR_dw_2))
 
     return da_dt, de_dt
